@@ -94,6 +94,13 @@ package resource_info
 // ---- Resource -----------------------------------------------------------------
 //@ define fitsRes(r *Resource, rr *Resource) bool = r.gpus <= rr.gpus && fitsBase(r.BaseResource, rr.BaseResource)
 
+//@ func EmptyResource
+//@   props C01 C14
+//@   fresh
+//@   ensures result.milliCpu == 0.0 && result.memory == 0.0 && result.gpus == 0.0
+//@   ensures fresh(result.scalarResources) && (forall k v1.ResourceName :: !(k in result.scalarResources))
+//@ end
+
 //@ func (*Resource).LessEqual
 //@   props C01 C14
 //@   requires r != nil && rr != nil
